@@ -2564,3 +2564,244 @@ Qed.
 Lemma count_default t u s : ctx_support t u = Some s ->
   ctx_count t u None = ctx_count t u (Some s).
 Proof. intro Es. unfold ctx_count. rewrite Es. reflexivity. Qed.
+
+(* ---- count = number yielded, default care set (cubes total over the support BITS only) ------------ *)
+Definition none_count (bs : list (option bool)) : nat :=
+  List.length (filter (fun b : option bool => match b with None => true | _ => false end) bs).
+
+Lemma enumerate_length bs : bs <> [] ->
+  Z.of_nat (List.length (enumerate_int bs)) = 2 ^ Z.of_nat (none_count bs).
+Proof.
+  intro Hne. unfold enumerate_int. rewrite enumerate_expand by lia.
+  rewrite map_length. apply expand_count. auto.
+Qed.
+
+Lemma take_product_length_mul x vals r model :
+  List.length (take_product ((x, vals) :: r) model) =
+  (List.length vals * List.length (take_product r model))%nat.
+Proof.
+  cbn [take_product]. apply length_flat_map_const. intro m. apply map_length.
+Qed.
+
+Definition missing_of (c : cube) (x : ident) (d : vdecl) : list bit :=
+  filter (fun b => negb (mem bit_eqb b (map fst c))) (bitnames x d).
+
+Definition int_missing (t' : tbl) (c : cube) : list bit :=
+  flat_map (fun xd =>
+    match snd xd with
+    | DInt h => if touched c (fst xd) h then missing_of c (fst xd) (DInt h) else []
+    | DBool => []
+    end) t'.
+
+Lemma none_count_pbits c x h :
+  none_count (pbits c x h ++ map Some (sign_tail h)) =
+  List.length (missing_of c x (DInt h)).
+Proof.
+  unfold none_count, pbits, missing_of. rewrite filter_app, app_length.
+  assert (E : filter (fun b : option bool => match b with None => true | _ => false end)
+                (map Some (sign_tail h)) = []).
+  { induction (sign_tail h); cbn; auto. }
+  rewrite E, Nat.add_0_r. clear E.
+  induction (bitnames x (DInt h)) as [|b l IH]; [reflexivity|].
+  cbn [map filter].
+  destruct (dict_get bit_eqb b c) eqn:Ed.
+  - assert (Hm : mem bit_eqb b (map fst c) = true).
+    { apply (mem_spec bit_eqb bit_eqb_spec).
+      apply (dict_get_in bit_eqb bit_eqb_spec) in Ed. apply in_map_iff. eexists (b, _). eauto. }
+    rewrite Hm. cbn [negb]. exact IH.
+  - assert (Hm : mem bit_eqb b (map fst c) = false).
+    { apply not_true_is_false. rewrite (mem_spec bit_eqb bit_eqb_spec).
+      apply (dict_get_none bit_eqb bit_eqb_spec). auto. }
+    rewrite Hm. cbn [negb List.length]. f_equal. exact IH.
+Qed.
+
+Lemma yield_length t' c model : (forall x h, In (x, DInt h) t' -> wf_hint h) ->
+  Z.of_nat (List.length (take_product (int_sets_spec t' c) model)) =
+  2 ^ Z.of_nat (List.length (int_missing t' c)).
+Proof.
+  induction t' as [|[x d] r IH]; intro Hwf; [reflexivity|].
+  assert (IH' := IH (fun y h Hy => Hwf y h (or_intror Hy))). clear IH.
+  cbn [int_sets_spec int_missing flat_map fst snd].
+  fold (int_sets_spec r c). fold (int_missing r c).
+  destruct d as [|h]; [exact IH'|].
+  destruct (touched c x h); [|exact IH']. cbn [app].
+  rewrite take_product_length_mul, Nat2Z.inj_mul, IH', app_length, Nat2Z.inj_add.
+  rewrite Z.pow_add_r by lia. f_equal.
+  rewrite enumerate_length, none_count_pbits; [reflexivity|].
+  assert (Hlp : List.length (pbits c x h) = wnat h)
+    by (unfold pbits; cbn [bitnames]; rewrite !map_length, seq_length; reflexivity).
+  destruct (pbits c x h) eqn:Ep; [|discriminate]. cbn in Hlp.
+  destruct (Hwf x h (or_introl eq_refl)) as [H1 _]. unfold wnat in Hlp. lia.
+Qed.
+
+Lemma filter_notin_length (l k : list bit) : NoDup l -> NoDup k ->
+  (forall b, In b k -> In b l) ->
+  (List.length (filter (fun b => negb (mem bit_eqb b k)) l) + List.length k)%nat =
+  List.length l.
+Proof.
+  intros NDl NDk Hincl.
+  pose proof (partition_perm (fun b => mem bit_eqb b k) l) as P.
+  apply Permutation_length in P. rewrite app_length in P.
+  assert (P2 : Permutation (filter (fun b => mem bit_eqb b k) l) k).
+  { apply NoDup_Permutation; auto; [apply NoDup_filter; auto|].
+    intro b. rewrite filter_In, (mem_spec bit_eqb bit_eqb_spec). split; [tauto|].
+    intro Hb. split; auto. }
+  apply Permutation_length in P2. lia.
+Qed.
+
+Lemma sub_flat_map_nodup (g : ident * vdecl -> list bit) (t : tbl) :
+  NoDup (map fst t) ->
+  (forall xd, NoDup (g xd) /\ forall b, In b (g xd) -> In b (bitnames (fst xd) (snd xd))) ->
+  NoDup (flat_map g t).
+Proof.
+  intros ND Hg. induction t as [|[x d] r IH]; cbn [flat_map]; [constructor|].
+  inversion ND; subst. apply nodup_app; auto.
+  - apply Hg.
+  - intros b Hb Hb'. apply (Hg (x, d)) in Hb. apply in_bitnames in Hb. destruct Hb as [Hx _].
+    apply in_flat_map in Hb'. destruct Hb' as ([y dy] & Hin & Hb').
+    apply (Hg (y, dy)) in Hb'. apply in_bitnames in Hb'. destruct Hb' as [Hy _].
+    cbn [fst] in *. apply H1. apply in_map_iff. exists (y, dy). split; auto. cbn. congruence.
+Qed.
+
+Lemma length_concat_sum {A} (ls : list (list A)) :
+  Z.of_nat (List.length (List.concat ls)) =
+  sumZ (map (fun l => Z.of_nat (List.length l)) ls).
+Proof.
+  induction ls as [|l ls IH]; [reflexivity|].
+  cbn [List.concat map]. rewrite app_length, Nat2Z.inj_add, sumZ_cons, IH. reflexivity.
+Qed.
+
+Lemma sumZ_map_ext {A} (f g : A -> Z) l : (forall x, In x l -> f x = g x) ->
+  sumZ (map f l) = sumZ (map g l).
+Proof.
+  induction l as [|a l IH]; intro H; [reflexivity|].
+  cbn [map]. rewrite !sumZ_cons, IH by (intros; apply H; right; auto).
+  rewrite (H a) by (left; auto). reflexivity.
+Qed.
+
+Theorem count_eq_yield_default t u cubes s : wf_tbl t -> uses_only (all_bits t) u ->
+  ctx_support t u = Some s ->
+  contract (all_bits t) u None cubes ->
+  exists n ds, ctx_count t u None = Some n /\
+    ctx_pick_iter t u None cubes = Some ds /\ n = Z.of_nat (List.length ds).
+Proof.
+  intros Hwf Hu Es Hct. pose proof Hwf as [ND Hwfh].
+  destruct (ctx_support_bits t u) as (s' & Es' & _ & Hs). rewrite Es in Es'.
+  inversion Es'; subst s'. clear Es'.
+  assert (Hdecl : forall x, In x s -> exists d, tlookup x t = Some d).
+  { intros x Hx. apply Hs in Hx. destruct Hx as (b & Hb & <-).
+    destruct (declared_bit_lookup t b Hwf (bsupport_incl _ _ _ Hb)) as (d & Hl & _). eauto. }
+  destruct (count_spec t u None s Hwf Hu Es (fun x H => H) Hdecl) as (bits & Er & NDb & Ec).
+  destruct (refine_vars_spec s t Hdecl) as (bits' & Er' & _ & _ & Hin).
+  cbv zeta in Er. rewrite Er in Er'. inversion Er'; subst bits'. clear Er'.
+  set (supp := bsupport (all_bits t) u) in *.
+  assert (Hsub : forall b, In b supp -> In b bits).
+  { intros b Hb. apply Hin.
+    destruct (declared_bit_lookup t b Hwf (bsupport_incl _ _ _ Hb)) as (d & Hl & Hbn).
+    exists (fst b), d. split; auto. apply Hs. eauto. }
+  assert (Hkeys : forall c, In c cubes ->
+            NoDup (map fst c) /\ (forall b, In b (map fst c) <-> In b supp)).
+  { intros c Hc. destruct (ct_ok _ _ _ _ Hct c Hc) as [NDc _]. split; auto.
+    intro b. split.
+    - intro Hb. destruct (ct_keys _ _ _ _ Hct c b Hc Hb); auto.
+    - intro Hb. apply (ct_care _ _ _ _ Hct c b Hc Hb). }
+  eexists _, _. split; [exact Ec|].
+  split; [apply (pick_iter_value t u None None cubes); auto|].
+  unfold all_asgs.
+  rewrite (cubes_count bits NDb cubes u zero_asg (uses_only_proper _ _ Hu)).
+  2:{ intros c Hc. destruct (Hkeys c Hc) as [NDc Hk]. split; auto.
+      intros b Hb. apply Hsub. apply Hk. auto. }
+  2:{ apply (ct_disjoint _ _ _ _ Hct). }
+  2:{ apply (ct_cover _ _ _ _ Hct). }
+  rewrite length_concat_sum, map_map. apply sumZ_map_ext.
+  intros c Hc. destruct (Hkeys c Hc) as [NDc Hk].
+  rewrite yield_length by auto. unfold cube_weight. f_equal.
+  (* the unassigned bits of the touched integers are the bits of the support
+     variables that the cube does not assign *)
+  assert (Hperm : Permutation (int_missing t c)
+                    (filter (fun b => negb (mem bit_eqb b (map fst c))) bits)).
+  { apply NoDup_Permutation.
+    - apply sub_flat_map_nodup; auto. intros [x d]. cbn [fst snd].
+      destruct d as [|h]; [split; [constructor|intros ? []]|].
+      destruct (touched c x h); [|split; [constructor|intros ? []]].
+      unfold missing_of. split; [apply NoDup_filter; apply bitnames_nodup|].
+      intros b Hb. apply filter_In in Hb. tauto.
+    - apply NoDup_filter. auto.
+    - intro b. unfold int_missing. rewrite in_flat_map, filter_In. split.
+      + intros ([x d] & Hxd & Hb). cbn [fst snd] in Hb.
+        destruct d as [|h]; [destruct Hb|].
+        destruct (touched c x h) eqn:Et; [|destruct Hb].
+        unfold missing_of in Hb. apply filter_In in Hb. destruct Hb as [Hb Hn].
+        split; auto. apply Hin. exists x, (DInt h). split; [|split; auto].
+        * unfold touched in Et. apply existsb_exists in Et. destruct Et as (b0 & Hb0 & Hm0).
+          apply (mem_spec bit_eqb bit_eqb_spec) in Hm0. apply Hk in Hm0.
+          apply Hs. exists b0. split; auto. apply in_bitnames in Hb0. tauto.
+        * apply in_tlookup; auto.
+      + intros [Hb Hn]. apply Hin in Hb. destruct Hb as (x & d & Hx & Hl & Hbn).
+        exists (x, d). split; [apply tlookup_in; auto|]. cbn [fst snd].
+        apply Hs in Hx. destruct Hx as (b0 & Hb0 & Ex).
+        assert (Hb0k : In b0 (map fst c)) by (apply Hk; auto).
+        destruct (declared_bit_lookup t b0 Hwf (bsupport_incl _ _ _ Hb0)) as (d0 & Hl0 & Hbn0).
+        rewrite Ex in Hl0, Hbn0. assert (d0 = d) by congruence. subst d0.
+        destruct d as [|h].
+        * exfalso. apply in_bitnames in Hbn. apply in_bitnames in Hbn0.
+          assert (b = b0) by (destruct b, b0, Hbn, Hbn0; cbn in *; congruence). subst b0.
+          apply negb_true_iff in Hn.
+          apply (mem_spec bit_eqb bit_eqb_spec) in Hb0k. congruence.
+        * assert (Et : touched c x h = true).
+          { unfold touched. apply existsb_exists. exists b0. split; auto.
+            apply (mem_spec bit_eqb bit_eqb_spec). auto. }
+          rewrite Et. unfold missing_of. apply filter_In. auto. }
+  apply Permutation_length in Hperm. rewrite Hperm.
+  pose proof (filter_notin_length bits (map fst c) NDb NDc) as Hl.
+  rewrite map_length in Hl. specialize (Hl (fun b Hb => Hsub b (proj1 (Hk b) Hb))). lia.
+Qed.
+
+(* ---- Context.pick ------------------------------------------------------------------------------------- *)
+Theorem pick_spec t u care_vars cb cubes : wf_tbl t -> uses_only (all_bits t) u ->
+  care_bits_of t care_vars = Some cb -> contract (all_bits t) u cb cubes ->
+  exists r, ctx_pick t u care_vars cubes = Some r /\
+    match r with
+    | None => forall f, in_range t f -> sem t u f = false
+    | Some d => forall f, in_range t f -> extends f d -> sem t u f = true
+    end.
+Proof.
+  intros Hwf Hu Hcare Hct. unfold ctx_pick.
+  rewrite (pick_iter_value t u care_vars cb cubes) by auto.
+  set (ds := List.concat _).
+  assert (Hs : forall d f, In d ds -> in_range t f -> extends f d -> sem t u f = true)
+    by (intros d f; apply (pick_iter_sound t u cb cubes); auto).
+  assert (Hc : forall f, in_range t f -> sem t u f = true -> exists d, In d ds /\ extends f d)
+    by (intro f; apply (pick_iter_complete t u cb cubes); auto).
+  destruct ds as [|d rest].
+  - exists None. split; auto. intros f Hf. destruct (sem t u f) eqn:E; auto.
+    destruct (Hc f Hf E) as (d & [] & _).
+  - exists (Some d). split; auto. intros f Hf He. apply (Hs d f); auto. left; auto.
+Qed.
+
+(* ---- Context.replace_with_bdd --------------------------------------------------------------------------- *)
+Theorem replace_with_bdd_spec t subs u : wf_tbl t -> uses_only (all_bits t) u ->
+  (forall x q, In (x, q) subs -> tlookup x t = Some DBool) ->
+  forall f, sem t (ctx_replace_with_bdd subs u) f =
+    sem t u (fun x => match dict_get String.eqb x subs with
+                      | Some q => VB (sem t q f)
+                      | None => f x
+                      end).
+Proof.
+  intros Hwf Hu Hb f. unfold sem, ctx_replace_with_bdd, bcompose. apply Hu. intros b Hb'.
+  assert (G : forall l, dict_get bit_eqb b (map (fun xq : ident * pred => ((fst xq, 0%nat), snd xq)) l) =
+            if Nat.eqb (snd b) 0 then dict_get String.eqb (fst b) l else None).
+  { induction l as [|[x q] l IH]; cbn [map dict_get fst snd].
+    - destruct (Nat.eqb (snd b) 0); reflexivity.
+    - rewrite IH. destruct b as [y i]. cbn [fst snd]. unfold bit_eqb. cbn [fst snd].
+      destruct (Nat.eqb_spec i 0); [|reflexivity]. subst.
+      destruct (String.eqb_spec y x); reflexivity. }
+  rewrite G. destruct (declared_bit_lookup t b Hwf Hb') as (d & Hl & Hbn).
+  destruct (dict_get String.eqb (fst b) subs) as [q|] eqn:Eq.
+  - assert (Hl' : tlookup (fst b) t = Some DBool).
+    { apply (Hb (fst b) q). apply (dict_get_in String.eqb string_eqb_spec'). auto. }
+    rewrite Hl' in Hl. inversion Hl; subst d.
+    apply in_bitnames in Hbn. destruct Hbn as [_ Hi]. rewrite Hi. cbn [Nat.eqb].
+    unfold encode. rewrite Hl', Eq. reflexivity.
+  - destruct (Nat.eqb (snd b) 0); apply encode_local; rewrite Eq; reflexivity.
+Qed.
